@@ -43,6 +43,13 @@ def run(pid, tier, seed, replay=None):
     wd = V.workdir(pid, "records")
     out = os.path.join(wd, "records.ndjson")
     cmd = [binary, cfg["sub"], "-seed", str(seed), "-tier", tier, "-out", out] + cfg.get("args", [])
+    if cfg.get("needs_pcbin"):
+        pcbin = os.path.join(V.workdir(pid, "bin"), "process-compose")
+        b = subprocess.run(["go", "build", "-o", pcbin, "./src"], cwd=V.REPO, env=V.goenv(), capture_output=True, text=True)
+        if b.returncode != 0:
+            V.log(b.stderr[-2000:])
+            raise V.Inconclusive("building the process-compose binary failed")
+        cmd += ["-pcbin", pcbin]
     r = subprocess.run(cmd, env=V.goenv(), capture_output=True, text=True, timeout=1500)
     if r.returncode != 0:
         V.log(r.stdout[-2000:], r.stderr[-3000:])
@@ -118,7 +125,11 @@ def run(pid, tier, seed, replay=None):
         "exhaustive": bool(cfg.get("exhaustive", False)),
         "rule": cfg.get("rule", "records produced by the real functions; each record evaluated by TLC"),
     }
-    V.write_evidence(pid, tier, seed, "model_checking", coverage, cfg.get("assumptions", []), time.time() - t0, len(new))
+    level = cfg.get("level", "model_checking")
+    if level == "exploration":
+        coverage["evaluations"] = lines
+        coverage["distinct_nontrivial"] = count_distinct(out, cfg)
+    V.write_evidence(pid, tier, seed, level, coverage, cfg.get("assumptions", []), time.time() - t0, len(new))
     if new:
         return 1
     if any(m["violated"] or not m["finished"] for m in models):
@@ -127,6 +138,17 @@ def run(pid, tier, seed, replay=None):
     if lines == 0:
         return 2
     return 0
+
+
+def count_distinct(path, cfg):
+    """distinct parameter combinations among the records (id and times removed)"""
+    seen = set()
+    for line in open(path):
+        e = json.loads(line)
+        key = json.dumps({k: e.get(k) for k in ("trigger", "signal", "parentOnly", "timeout", "command")} |
+                         {"tree": [(m["name"], m["ignores"]) for m in e.get("members", [])]}, sort_keys=True)
+        seen.add(key)
+    return len(seen)
 
 
 def is_start(line, cfg):
